@@ -245,6 +245,10 @@ func newNode() *topicNode {
 
 func (node *topicNode) addClients(ans map[string]byte) {
 	for client, qos := range node.clients {
-		ans[client] = qos
+		// a client may match the topic through several of its subscriptions:
+		// keep the highest QoS it asked for, independent of the visiting order
+		if old, ok := ans[client]; !ok || qos > old {
+			ans[client] = qos
+		}
 	}
 }
